@@ -16,6 +16,8 @@ EXPLANATION = (
     'pack exactly when symmetric, and every pack is paired with one unpack into the captured shape.  Exact value equality per '
     'dtype is torch\'s gather/scatter semantics and is not decided.')
 
+NOT_DECIDED = 'exact value equality per dtype (torch gather/scatter)'
+
 
 def run(ctx: Ctx) -> None:
     ctx.assumptions -= {'A6'}
